@@ -42,6 +42,7 @@ Obj  == 1..NObj
 Null == 0
 OOS  == 9          \* "variable is not in scope" in the observable projection
 SelfCopyDev == "shared-self-copy-assign-sole-owner"
+NWit == 12
 
 VARIABLES scope,   \* set of variables currently alive
           own,     \* Var -> Obj \cup {Null}
@@ -49,9 +50,13 @@ VARIABLES scope,   \* set of variables currently alive
           ost,     \* Obj -> "unborn" | "live" | "dead"
           dcnt,    \* Obj -> number of destructor runs (ghost)
           devUsed, \* ghost: deviations taken
+          ncb,     \* ghost, only read by the deviation: shared_ptr variables that hold null but may own a
+                   \* control block of their own (built from a null raw pointer / an empty unique_ptr:
+                   \* std::shared_ptr<T>(static_cast<T*>(nullptr)) is not "empty").  Nothing the
+                   \* interface offers can observe it.
           hist
 
-bvars == <<scope, own, raw, ost, dcnt, devUsed>>
+bvars == <<scope, own, raw, ost, dcnt, devUsed, ncb>>
 vars  == <<bvars, hist>>
 
 IsU(v) == v \in UVars
@@ -97,7 +102,7 @@ Go == devUsed = {} /\ (~Hist \/ Len(hist) < Depth)
 
 \* One operation: new scope / ownership / raw set, newly created objects, objects let go of.
 \* alts: other outcomes the contract allows for this step (don't-care band); dv: deviation record
-Step(op, v, w, sc2, ow2, rw2, born, rel, ret, alts, dv) ==
+Step(op, v, w, sc2, ow2, rw2, born, rel, ret, alts, dv, n2) ==
   LET died == {o \in rel \ {Null} : ~Owned(o, sc2, ow2, rw2)}
       os2  == [o \in Obj |-> IF o \in died THEN "dead" ELSE IF o \in born THEN "live" ELSE ost[o]]
   IN /\ Go
@@ -105,46 +110,54 @@ Step(op, v, w, sc2, ow2, rw2, born, rel, ret, alts, dv) ==
      /\ ost' = os2
      /\ dcnt' = [o \in Obj |-> dcnt[o] + (IF o \in died THEN 1 ELSE 0)]
      /\ UNCHANGED devUsed
+     /\ ncb' = {x \in n2 \cap sc2 : ~IsU(x) /\ ow2[x] = Null}
      /\ hist' = IF ~Hist THEN hist
                 ELSE Append(hist, [op |-> op, v |-> v, w |-> w,
                                    exp |-> ObsOf(sc2, ow2, os2, died, ret),
                                    alts |-> alts, dev |-> dv.name, expDev |-> dv.exp])
 
-Plain(op, v, w, sc2, ow2, rw2, born, rel, ret) == Step(op, v, w, sc2, ow2, rw2, born, rel, ret, <<>>, NoDev)
+Plain(op, v, w, sc2, ow2, rw2, born, rel, ret, n2) == Step(op, v, w, sc2, ow2, rw2, born, rel, ret, <<>>, NoDev, n2)
+\* v takes over what w holds: it may own a null control block iff w did, or iff w is an empty unique_ptr
+Takes(v, w) == IF (w \in ncb) \/ (IsU(w) /\ own[w] = Null) THEN ncb \cup {v} ELSE ncb \ {v}
 
 (* ---- construction ------------------------------------------------------ *)
 CtorDefault(v) ==      \* P<T> v;   P<T> v(nullptr);
   /\ v \notin scope
-  /\ Plain("CtorDefault", v, "", scope \cup {v}, [own EXCEPT ![v] = Null], raw, {}, {}, OOS)
+  /\ Plain("CtorDefault", v, "", scope \cup {v}, [own EXCEPT ![v] = Null], raw, {}, {}, OOS, ncb \cup {v})
 
 CtorNew(v) ==          \* P<T> v(new Derived)  /  from std::unique_ptr&& / std::shared_ptr
   /\ v \notin scope /\ Unborn # {}
   /\ LET o == NextObj IN
-     Plain("CtorNew", v, "", scope \cup {v}, [own EXCEPT ![v] = o], raw, {o}, {}, OOS)
+     Plain("CtorNew", v, "", scope \cup {v}, [own EXCEPT ![v] = o], raw, {o}, {}, OOS, ncb)
 
 CtorAdopt(v, o) ==     \* P<T> v(p) with p a raw pointer obtained from release()
   /\ v \notin scope /\ o \in raw
-  /\ Plain("CtorAdopt", v, "", scope \cup {v}, [own EXCEPT ![v] = o], raw \ {o}, {}, {}, o)
+  /\ Plain("CtorAdopt", v, "", scope \cup {v}, [own EXCEPT ![v] = o], raw \ {o}, {}, {}, o, ncb)
 
 CtorCopy(v, w) ==      \* shared_ptr<T> v(w);
   /\ v \notin scope /\ w \in scope /\ CopyConv(w, v)
-  /\ Plain("CtorCopy", v, w, scope \cup {v}, [own EXCEPT ![v] = own[w]], raw, {}, {}, OOS)
+  /\ Plain("CtorCopy", v, w, scope \cup {v}, [own EXCEPT ![v] = own[w]], raw, {}, {}, OOS, Takes(v, w))
 
 CtorMove(v, w) ==      \* P<T> v(std::move(w));  incl. Derived -> Base and unique -> shared
   /\ v \notin scope /\ w \in scope /\ MoveConv(w, v)
-  /\ Plain("CtorMove", v, w, scope \cup {v}, [own EXCEPT ![v] = own[w], ![w] = Null], raw, {}, {}, OOS)
+  /\ Plain("CtorMove", v, w, scope \cup {v}, [own EXCEPT ![v] = own[w], ![w] = Null], raw, {}, {}, OOS, Takes(v, w) \ {w})
 
 (* ---- assignment -------------------------------------------------------- *)
 \* v = w (copy), including v = v.  The old object of v is let go of.
+\* Deviation (only v = v): (A) v is the only owner of its object: the code destroys the object and keeps
+\* pointing at it; (B) v holds null but owns a control block of its own: the code frees the control
+\* block and goes on using it -- nothing observable changes, the process may die (sanitizer, allocator).
 AssignCopy(v, w) ==
   /\ v \in scope /\ w \in scope /\ CopyConv(w, v)
   /\ LET o == own[v]
-         devApplies == v = w /\ SoleOwner(v) /\ SelfCopyDev \in Dev
+         devA == v = w /\ SoleOwner(v) /\ SelfCopyDev \in Dev
+         devB == v = w /\ own[v] = Null /\ v \in ncb /\ SelfCopyDev \in Dev
          os3 == [ost EXCEPT ![o] = "dead"]
-         dv == IF devApplies
-                 THEN [name |-> SelfCopyDev, exp |-> <<ObsOf(scope, own, os3, {o}, OOS)>>]
-                 ELSE NoDev
-     IN Step("AssignCopy", v, w, scope, [own EXCEPT ![v] = own[w]], raw, {}, {o}, OOS, <<>>, dv)
+         dv == IF devA THEN [name |-> SelfCopyDev, exp |-> <<ObsOf(scope, own, os3, {o}, OOS)>>]
+               ELSE IF devB THEN [name |-> SelfCopyDev, exp |-> <<ObsOf(scope, own, ost, {}, OOS)>>]
+               ELSE NoDev
+     IN Step("AssignCopy", v, w, scope, [own EXCEPT ![v] = own[w]], raw, {}, {o}, OOS, <<>>, dv,
+             IF v = w THEN ncb ELSE Takes(v, w))
 
 \* what the unchanged code does for `s = s` when s is the only owner: the object is destroyed
 \* and s keeps pointing at it.  Only for the AsImplemented model-checking run (terminal state).
@@ -155,7 +168,7 @@ AssignCopySelfDev(v) ==
      /\ ost' = [ost EXCEPT ![o] = "dead"]
      /\ dcnt' = [dcnt EXCEPT ![o] = dcnt[o] + 1]
      /\ devUsed' = devUsed \cup {SelfCopyDev}
-     /\ UNCHANGED <<scope, own, raw>>
+     /\ UNCHANGED <<scope, own, raw, ncb>>
      /\ hist' = IF ~Hist THEN hist
                 ELSE Append(hist, [op |-> "AssignCopy", v |-> v, w |-> v,
                                    exp |-> ObsOf(scope, own, ost, {}, OOS), alts |-> <<>>,
@@ -164,7 +177,7 @@ AssignCopySelfDev(v) ==
 
 AssignMove(v, w) ==    \* v = std::move(w), v # w
   /\ v \in scope /\ w \in scope /\ v # w /\ AssignConv(w, v)
-  /\ Plain("AssignMove", v, w, scope, [own EXCEPT ![v] = own[w], ![w] = Null], raw, {}, {own[v]}, OOS)
+  /\ Plain("AssignMove", v, w, scope, [own EXCEPT ![v] = own[w], ![w] = Null], raw, {}, {own[v]}, OOS, Takes(v, w) \ {w})
 
 \* v = std::move(v): valid but unspecified -- unchanged or emptied (never dangling, never leaked)
 AssignMoveSelf(v, keep) ==
@@ -175,47 +188,49 @@ AssignMoveSelf(v, keep) ==
          osE == [p \in Obj |-> IF p \in diedE THEN "dead" ELSE ost[p]]
          oK == ObsOf(scope, own, ost, {}, OOS)
          oE == ObsOf(scope, owE, osE, diedE, OOS)
-     IN IF keep THEN Step("AssignMoveSelf", v, v, scope, own, raw, {}, {}, OOS, <<oE>>, NoDev)
-                ELSE Step("AssignMoveSelf", v, v, scope, owE, raw, {}, {o}, OOS, <<oK>>, NoDev)
+     IN IF keep THEN Step("AssignMoveSelf", v, v, scope, own, raw, {}, {}, OOS, <<oE>>, NoDev, ncb)
+                ELSE Step("AssignMoveSelf", v, v, scope, owE, raw, {}, {o}, OOS, <<oK>>, NoDev, ncb \ {v})
 
 AssignNull(v) ==       \* v = nullptr
   /\ v \in scope
-  /\ Plain("AssignNull", v, "", scope, [own EXCEPT ![v] = Null], raw, {}, {own[v]}, OOS)
+  /\ Plain("AssignNull", v, "", scope, [own EXCEPT ![v] = Null], raw, {}, {own[v]}, OOS, ncb \ {v})
 
 (* ---- unique_ptr only ------------------------------------------------- *)
 Reset(v) ==            \* v.reset()
   /\ v \in scope /\ IsU(v)
-  /\ Plain("Reset", v, "", scope, [own EXCEPT ![v] = Null], raw, {}, {own[v]}, OOS)
+  /\ Plain("Reset", v, "", scope, [own EXCEPT ![v] = Null], raw, {}, {own[v]}, OOS, ncb)
 
 ResetNew(v) ==         \* v.reset(new Derived)
   /\ v \in scope /\ IsU(v) /\ Unborn # {}
   /\ LET o == NextObj IN
-     Plain("ResetNew", v, "", scope, [own EXCEPT ![v] = o], raw, {o}, {own[v]}, OOS)
+     Plain("ResetNew", v, "", scope, [own EXCEPT ![v] = o], raw, {o}, {own[v]}, OOS, ncb)
 
 ResetAdopt(v, o) ==    \* v.reset(p), p a released raw pointer
   /\ v \in scope /\ IsU(v) /\ o \in raw
-  /\ Plain("ResetAdopt", v, "", scope, [own EXCEPT ![v] = o], raw \ {o}, {}, {own[v]}, o)
+  /\ Plain("ResetAdopt", v, "", scope, [own EXCEPT ![v] = o], raw \ {o}, {}, {own[v]}, o, ncb)
 
 Release(v) ==          \* p = v.release()  (or std::unique_ptr<T> s = std::move(v))
   /\ v \in scope /\ IsU(v)
-  /\ Plain("Release", v, "", scope, [own EXCEPT ![v] = Null], raw \cup ({own[v]} \ {Null}), {}, {}, own[v])
+  /\ Plain("Release", v, "", scope, [own EXCEPT ![v] = Null], raw \cup ({own[v]} \ {Null}), {}, {}, own[v], ncb)
 
 RawDelete(o) ==        \* delete p
   /\ o \in raw
-  /\ Plain("RawDelete", "", "", scope, own, raw \ {o}, {}, {o}, o)
+  /\ Plain("RawDelete", "", "", scope, own, raw \ {o}, {}, {o}, o, ncb)
 
 (* ---- both ---------------------------------------------------------------- *)
 Swap(v, w) ==          \* v.swap(w), including v.swap(v)
   /\ v \in scope /\ w \in scope /\ Swappable(v, w)
-  /\ Plain("Swap", v, w, scope, [own EXCEPT ![v] = own[w], ![w] = own[v]], raw, {}, {}, OOS)
+  /\ Plain("Swap", v, w, scope, [own EXCEPT ![v] = own[w], ![w] = own[v]], raw, {}, {}, OOS,
+           (ncb \ {v, w}) \cup (IF w \in ncb THEN {v} ELSE {}) \cup (IF v \in ncb THEN {w} ELSE {}))
 
 ScopeExit(v) ==        \* the variable's destructor runs
   /\ v \in scope
-  /\ Plain("ScopeExit", v, "", scope \ {v}, [own EXCEPT ![v] = Null], raw, {}, {own[v]}, OOS)
+  /\ Plain("ScopeExit", v, "", scope \ {v}, [own EXCEPT ![v] = Null], raw, {}, {own[v]}, OOS, ncb \ {v})
 
 Init == /\ scope = {} /\ own = [v \in Var |-> Null] /\ raw = {}
         /\ ost = [o \in Obj |-> "unborn"] /\ dcnt = [o \in Obj |-> 0]
-        /\ devUsed = {} /\ hist = <<>>
+        /\ devUsed = {} /\ ncb = {} /\ hist = <<>>
+        /\ \A i \in 1..NWit : TLCSet(i, 0)
 
 Next == \/ \E v \in Var : CtorDefault(v) \/ CtorNew(v) \/ AssignNull(v) \/ Reset(v) \/ ResetNew(v)
                           \/ Release(v) \/ ScopeExit(v) \/ AssignCopySelfDev(v)
@@ -231,6 +246,7 @@ Spec == Init /\ [][Next]_vars
 TypeOK == /\ scope \subseteq Var /\ raw \subseteq Obj
           /\ \A v \in Var : own[v] \in Obj \cup {Null}
           /\ \A v \in Var \ scope : own[v] = Null
+          /\ ncb \subseteq {v \in scope : ~IsU(v) /\ own[v] = Null}
 DestroyedAtMostOnce == \A o \in Obj : dcnt[o] <= 1 /\ (ost[o] = "dead" <=> dcnt[o] = 1)
 \* alive exactly as long as somebody owns it: no leak (live, no owner), no dangling owner
 LiveIffOwned == \A o \in Obj : (ost[o] = "live") <=> Owned(o, scope, own, raw)
@@ -247,17 +263,21 @@ Born == {o \in Obj : ost[o] # "unborn"}
 Beh == [steps |-> hist, born |-> Born]
 EmitAll == (Hist /\ (Len(hist) = Depth)) => PrintT(<<"BEH", ToJson(Beh)>>)
 Last == hist[Len(hist)]
-Wit(c) == (Hist /\ Len(hist) > 0 /\ c) => (PrintT(<<"BEH", ToJson(Beh)>>) /\ FALSE)
-\* rare conditions that must be replayed on every run
-WitSelfCopySole   == Wit(Last.op = "AssignCopy" /\ Last.v = Last.w /\ Last.dev # "")
-WitSelfCopyShared == Wit(Last.op = "AssignCopy" /\ Last.v = Last.w /\ Last.dev = "" /\ own[Last.v] # Null)
-WitSelfMove       == Wit(Last.op = "AssignMoveSelf" /\ Last.exp.died # {})
-WitSelfSwap       == Wit(Last.op = "Swap" /\ Last.v = Last.w /\ own[Last.v] # Null)
-WitLastOwnerExit  == Wit(Last.op = "ScopeExit" /\ Last.exp.died # {} /\ Len(hist) >= 4)
-WitNotLastExit    == Wit(Last.op = "ScopeExit" /\ Last.exp.died = {} /\ \E i \in 1..Len(Vars) : Last.exp.get[i] \in Obj)
-WitAssignKills    == Wit(Last.op \in {"AssignCopy", "AssignMove"} /\ Last.v # Last.w /\ Last.exp.died # {})
-WitAdopt          == Wit(Last.op \in {"CtorAdopt", "ResetAdopt"})
-WitRawDelete      == Wit(Last.op = "RawDelete")
-WitConvUS         == Wit(Last.op \in {"CtorMove", "AssignMove"} /\ Last.w \in UVars /\ Last.v \notin UVars /\ own[Last.v] # Null)
-WitConvDB         == Wit(Last.op \in {"CtorMove", "AssignMove"} /\ Last.w \notin BVars /\ Last.v \in BVars /\ own[Last.v] # Null)
+HasLast == Hist /\ Len(hist) > 0
+\* rare conditions that must be in the replay set of every run: each is reported once (per worker)
+\* from the path-enumeration run itself; the check is broken if one of them is never reported
+Wits == <<
+  <<"SelfCopySole",    HasLast /\ Last.op = "AssignCopy" /\ Last.v = Last.w /\ Last.dev # "" /\ own[Last.v] # Null>>,
+  <<"SelfCopyNullCB",  HasLast /\ Last.op = "AssignCopy" /\ Last.v = Last.w /\ Last.dev # "" /\ own[Last.v] = Null>>,
+  <<"SelfCopyShared",  HasLast /\ Last.op = "AssignCopy" /\ Last.v = Last.w /\ Last.dev = "" /\ own[Last.v] # Null>>,
+  <<"SelfMove",        HasLast /\ Last.op = "AssignMoveSelf" /\ Last.exp.died # {}>>,
+  <<"SelfSwap",        HasLast /\ Last.op = "Swap" /\ Last.v = Last.w /\ own[Last.v] # Null>>,
+  <<"LastOwnerExit",   HasLast /\ Last.op = "ScopeExit" /\ Last.exp.died # {} /\ Len(hist) >= 4>>,
+  <<"NotLastExit",     HasLast /\ Last.op = "ScopeExit" /\ Last.exp.died = {} /\ \E i \in 1..Len(Vars) : Last.exp.get[i] \in Obj>>,
+  <<"AssignKills",     HasLast /\ Last.op \in {"AssignCopy", "AssignMove"} /\ Last.v # Last.w /\ Last.exp.died # {}>>,
+  <<"Adopt",           HasLast /\ Last.op \in {"CtorAdopt", "ResetAdopt"}>>,
+  <<"RawDelete",       HasLast /\ Last.op = "RawDelete">>,
+  <<"ConvUniqueShared", HasLast /\ Last.op \in {"CtorMove", "AssignMove"} /\ Last.w \in UVars /\ Last.v \notin UVars /\ own[Last.v] # Null>>,
+  <<"ConvDerivedBase", HasLast /\ Last.op \in {"CtorMove", "AssignMove"} /\ Last.w \notin BVars /\ Last.v \in BVars /\ own[Last.v] # Null>> >>
+WitAll == \A i \in 1..NWit : (Wits[i][2] /\ TLCGet(i) = 0) => (PrintT(<<"WIT", Wits[i][1]>>) /\ TLCSet(i, 1))
 =============================================================================
